@@ -701,7 +701,13 @@ fn random_type(rng: &mut StdRng) -> Type {
         86..=88 => tuple_type(vec![]),
         89..=90 => vector_type(2, t_i32()),
         91..=92 => named_tuple_type(vec![("x".into(), t_i32()), ("y".into(), t_bit())]),
-        93..=94 => t_bad(),
+        93 => t_bad(),
+        // a repeated field name that is NOT adjacent to its first occurrence (round-3 change C11_F: dedup without sort)
+        94 => match rng.gen_range(0..3) {
+            0 => named_tuple_type(vec![("a".into(), t_i32()), ("b".into(), t_bit()), ("a".into(), t_i32())]),
+            1 => named_tuple_type(vec![("x".into(), t_i32()), ("x".into(), t_bit())]),
+            _ => vector_type(2, named_tuple_type(vec![("k".into(), t_bit()), ("v".into(), t_i32()), ("w".into(), t_i32()), ("k".into(), t_bit())])),
+        },
         95..=96 => t_big(),
         97..=98 => t_huge(),
         _ => array_type(vec![2, 0], BIT),
